@@ -75,6 +75,10 @@ def trace_inputs(trace_json):
 
 
 def make_replay(u, wd, f, rec):
+    if getattr(u, "script", None):
+        rec["verifier_output"] = f.get("script_output", "")
+        rec["reproduced"] = False
+        return rec, False
     cmd = core.cbmc_cmd(u, ["--trace", "--property", f["id"]])
     rc, so, se, t = core.sh(cmd, max(u.timeout, 300), wd, u.mem_gb)
     txt = so.decode(errors="replace")
